@@ -1175,7 +1175,11 @@ class Parser:
             return self._parse_function_expression()
 
         # Regex literal - when we see / in primary expression context, it's a regex
-        if self._check(TokenType.SLASH):
+        if self._check(TokenType.SLASH) or self._check(TokenType.SLASH_ASSIGN):
+            if self._check(TokenType.SLASH_ASSIGN):
+                # a regex that starts with '=': give the '=' back to the lexer
+                self.lexer.pos -= 1
+                self.lexer.column -= 1
             regex_token = self.lexer.read_regex_literal()
             pattern, flags = regex_token.value
             # A regular expression literal that is not valid (or too large) is an error of
